@@ -14,6 +14,7 @@ import (
 	"fmt"
 	"io"
 	"path"
+	"sort"
 	"time"
 )
 
@@ -67,6 +68,41 @@ func parseTar(raw []byte) (es []tarEntry, gz bool, err error) {
 		}
 		es = append(es, e)
 	}
+}
+
+// gzipMembers compresses b as a gzip stream of len(split)+1 members (RFC 1952
+// section 2.2: a gzip file is a series of members): b is cut at the offsets
+// split[i] mod (len(b)+1), each part is written by its own gzip.Writer and the
+// members are concatenated. Equal offsets (or 0 / len(b)) give empty members.
+// Without split the result is an ordinary single-member stream.
+func gzipMembers(b []byte, split []int) []byte {
+	cuts := []int{}
+	for _, o := range split {
+		cuts = append(cuts, mod(o, len(b)+1))
+	}
+	sort.Ints(cuts)
+	cuts = append(cuts, len(b))
+	var buf bytes.Buffer
+	prev := 0
+	for _, c := range cuts {
+		zw := gzip.NewWriter(&buf)
+		_, _ = zw.Write(b[prev:c])
+		_ = zw.Close()
+		prev = c
+	}
+	return buf.Bytes()
+}
+
+// buildTarSplit is buildTar with the outer gzip stream written as several members.
+func buildTarSplit(es []tarEntry, gz bool, split []int) ([]byte, error) {
+	if !gz || len(split) == 0 {
+		return buildTar(es, gz)
+	}
+	plain, err := buildTar(es, false)
+	if err != nil {
+		return nil, err
+	}
+	return gzipMembers(plain, split), nil
 }
 
 // buildTar serialises entries in the given order.
